@@ -2,7 +2,7 @@
    to fills, fills orders along the remaining price path (C08 clause iv). *)
 From Coq Require Import ZArith QArith Qcanon Lqa List Bool.
 From JV Require Import Base.Num Base.QcTac Gen.candle Gen.backtest Model.Match Spec.PathSpec
-  Proofs.CandleProofs Proofs.CandleProofs2 Proofs.MatchProofs Proofs.SortProofs.
+  Proofs.CandleProofs Proofs.CandleProofs2 Proofs.MatchProofs Proofs.SortProofs Proofs.KernelEq.
 Import ListNotations.
 Local Open Scope Qc_scope.
 Import QcI.
@@ -44,8 +44,9 @@ Theorem fix_jump_valid (prev c : cndl) : valid c ->
   valid c' /\ c_open c' = c_close prev /\ c_close c' = c_close c /\ c_ts c' = c_ts c /\ c_vol c' = c_vol c /\
   c_high c' = qmax (c_high c) (c_close prev) /\ c_low c' = qmin (c_low c) (c_close prev).
 Proof.
+  rewrite gen_fix_jump_ref.
   destruct c as [t0 o0 c0 h0 l0 v0]. destruct prev as [t1 o1 c1 h1 l1 v1].
-  unfold valid, fix_jump, nmin, nmax, qmax, qmin. cbn [leb ltb eqb QcNum c_ts c_open c_close c_high c_low c_vol T].
+  unfold valid, fix_jump_ref, qmax, qmin. cbn [c_ts c_open c_close c_high c_low c_vol].
   intros (H1 & H2 & H3 & H4).
   destruct (qltb_spec c1 o0); [|destruct (qltb_spec o0 c1)]; cbn [c_ts c_open c_close c_high c_low c_vol];
   repeat CandleProofs.dec1; repeat split; try reflexivity; try (apply Qc_is_canon; qc); qc.
